@@ -1,10 +1,29 @@
+// C11 -- serial date-times -> calendar date, time, duration (feature `dates`).
+//
+// Decomposition (see DESIGN.md "C11"):
+//  (A) calamine's arithmetic. `ExcelDateTime::as_datetime` hands chrono exactly one number: the millisecond offset
+//      `ms` from 1899-12-30T00:00 (`Duration::milliseconds(ms)`); `as_duration` likewise. Harnesses marked
+//      `#[kani::stub(chrono::TimeDelta::milliseconds, rec_milliseconds)]` run the REAL calamine function and observe that number.
+//      Specifications are integer/rational statements derived from the property text:
+//        1900 system: day offset = serial (+1 below serial 60: serial 1 = 1900-01-01 = epoch + 2 days),
+//        1904 system: day offset = serial + 1462 (serial 0 = 1904-01-01),
+//        ms = exact real product (day offset * 86_400_000) rounded to the nearest integer, ties away from zero.
+//      Every f64 is m * 2^k, so the exact product is a rational with a power-of-two denominator and all comparisons are done
+//      in u128 integer arithmetic -- no float operation of the code is repeated on the specification side.
+//  (B) chrono's calendar (epoch + k days is the civil date k days later) is ASSUMED; anchored by concrete runs of the real,
+//      unstubbed function and (thorough tier) compared with an independent days-to-civil oracle on sub-ranges.
+//  (C) trait-level conversions: `ExcelDateTime::as_datetime/as_duration` are replaced by recording stubs that return a symbolic
+//      value, so the harness sees exactly which ExcelDateTime the trait method builds and what it does with the result.
 use chrono::{Datelike, NaiveDate, NaiveDateTime, NaiveTime, TimeDelta, Timelike};
 
-const DAY_MS: i64 = 86_400_000;
+const DAY_MS: i64 = 86_400_000; // 24 h in ms = 84375 * 2^10
+const LAST_SERIAL: f64 = 2958466.0; // first serial after 9999-12-31 (supported span: 0 <= v < LAST_SERIAL)
 
+// ------------------------------------------------------------------ observables
 static mut REC_MS: i64 = 0;
 static mut REC_CALLS: u32 = 0;
 
+/// recording stub for `chrono::TimeDelta::milliseconds`
 fn rec_milliseconds(ms: i64) -> TimeDelta {
     unsafe {
         REC_MS = ms;
@@ -13,248 +32,242 @@ fn rec_milliseconds(ms: i64) -> TimeDelta {
     TimeDelta::zero()
 }
 
+/// the millisecond offset the real `as_datetime` passes to chrono
 fn ms_of(v: f64, is_1904: bool) -> i64 {
     unsafe {
         REC_CALLS = 0;
     }
-    let r = ExcelDateTime::new(v, ExcelDateTimeType::DateTime, is_1904).as_datetime();
+    let _ = ExcelDateTime::new(v, ExcelDateTimeType::DateTime, is_1904).as_datetime();
     unsafe {
         assert!(REC_CALLS == 1);
         REC_MS
     }
 }
 
+/// the millisecond count the real `as_duration` passes to chrono (type tag and date system must not matter)
+fn dur_ms_of(v: f64) -> i64 {
+    unsafe {
+        REC_CALLS = 0;
+    }
+    let ty = if kani::any() { ExcelDateTimeType::TimeDelta } else { ExcelDateTimeType::DateTime };
+    let r = ExcelDateTime::new(v, ty, kani::any()).as_duration();
+    unsafe {
+        assert!(REC_CALLS == 1);
+        assert!(r.is_some());
+        REC_MS
+    }
+}
+
+/// positive normal double with unbiased exponent `e` and 52-bit fraction `m`: value (2^52 + m) * 2^(e-52)
+fn mk(e: i32, m: u64, neg: bool) -> f64 {
+    f64::from_bits(((neg as u64) << 63) | (((1023 + e) as u64) << 52) | m)
+}
+
+// ------------------------------------------------------------------ (A1) whole days
 fn whole_days_1900(lo: u32, hi: u32) {
     let n: u32 = kani::any();
     kani::assume(lo <= n && n <= hi);
     kani::cover!(n == lo);
     kani::cover!(n == hi);
     let ms = ms_of(n as f64, false);
+    // serial 1 is 1900-01-01 = 1899-12-30 + 2 days; from serial 61 (1900-03-01 = 1899-12-30 + 61 days) one day per unit;
+    // serial 60 is the fictitious 1900-02-29 (no expectation beyond lying between its neighbours: here the same offset as 59 + 1)
     let days = if n >= 60 { n as i64 } else { n as i64 + 1 };
     assert!(ms == days * DAY_MS);
 }
-
-#[kani::proof]
-#[kani::stub(chrono::TimeDelta::milliseconds, rec_milliseconds)]
-fn x_days_full() {
-    whole_days_1900(0, 2958465);
-}
-#[kani::proof]
-#[kani::stub(chrono::TimeDelta::milliseconds, rec_milliseconds)]
-fn x_days_64k() {
-    whole_days_1900(65536, 131071);
-}
-#[kani::proof]
-#[kani::stub(chrono::TimeDelta::milliseconds, rec_milliseconds)]
-fn x_days_4k() {
-    whole_days_1900(65536, 65536 + 4095);
-}
-#[kani::proof]
-#[kani::stub(chrono::TimeDelta::milliseconds, rec_milliseconds)]
-fn x_days_exp21() {
-    whole_days_1900(1 << 21, 2958465);
-}
-
 fn whole_days_1904(lo: u32, hi: u32) {
     let n: u32 = kani::any();
     kani::assume(lo <= n && n <= hi);
     kani::cover!(n == lo);
     kani::cover!(n == hi);
     let ms = ms_of(n as f64, true);
+    // serial 0 is 1904-01-01 = 1899-12-30 + 1462 days
     assert!(ms == (n as i64 + 1462) * DAY_MS);
 }
-#[kani::proof]
-#[kani::stub(chrono::TimeDelta::milliseconds, rec_milliseconds)]
-fn x_days04_exp21() {
-    whole_days_1904(1 << 21, 2958465);
-}
-#[kani::proof]
-#[kani::stub(chrono::TimeDelta::milliseconds, rec_milliseconds)]
-fn x_days04_exp10() {
-    whole_days_1904(1 << 10, (1 << 11) - 1);
-}
 
-/// v = q / 1024 (exact); the exact product v * 86_400_000 = q * 84375 is an integer
-fn dyadic10_1900(lo: u32, hi: u32) {
-    let q: u32 = kani::any();
-    kani::assume(lo <= q && q <= hi);
-    kani::cover!(q == lo);
-    kani::cover!(q == hi);
-    let v = q as f64 * (1.0 / 1024.0);
-    let ms = ms_of(v, false);
-    let qq = if q >= 60 * 1024 { q as i64 } else { q as i64 + 1024 };
-    assert!(ms == qq * 84375);
-}
-#[kani::proof]
-#[kani::stub(chrono::TimeDelta::milliseconds, rec_milliseconds)]
-fn x_dy10_exp31() {
-    dyadic10_1900(1 << 31, 2958466 * 1024 - 1);
-}
-#[kani::proof]
-#[kani::stub(chrono::TimeDelta::milliseconds, rec_milliseconds)]
-fn x_dy10_exp20() {
-    dyadic10_1900(1 << 20, (1 << 21) - 1);
-}
-
-/// v = q / 2^20: exact product q * 84375 / 1024, rounded half away from zero
-fn dyadic20_1900(lo: u64, hi: u64) {
-    let q: u64 = kani::any();
-    kani::assume(lo <= q && q <= hi);
-    kani::cover!(q == lo);
-    kani::cover!(q == hi);
-    let v = q as f64 * (1.0 / 1048576.0);
-    let ms = ms_of(v, false);
-    let qq = if q >= 60 << 20 { q as i64 } else { q as i64 + (1 << 20) };
-    assert!(ms == (qq * 84375 + 512) >> 10);
-}
-#[kani::proof]
-#[kani::stub(chrono::TimeDelta::milliseconds, rec_milliseconds)]
-fn x_dy20_exp36() {
-    dyadic20_1900(1 << 36, (1 << 36) + (1 << 35));
-}
-#[kani::proof]
-#[kani::stub(chrono::TimeDelta::milliseconds, rec_milliseconds)]
-fn x_dy20_exp30() {
-    dyadic20_1900(1 << 30, (1 << 31) - 1);
-}
-
-#[kani::proof]
-#[kani::stub(chrono::TimeDelta::milliseconds, rec_milliseconds)]
-fn x_mono_quarter() {
-    let i: u16 = kani::any();
-    let j: u16 = kani::any();
-    kani::assume(i <= j && j <= 400);
-    let a = i as f64 / 4.0;
-    let b = j as f64 / 4.0;
-    assert!(ms_of(a, false) <= ms_of(b, false));
-}
-
-/// totality, everything real
-#[kani::proof]
-fn x_total_real() {
-    let v: f64 = kani::any();
-    let is_1904: bool = kani::any();
-    let _ = ExcelDateTime::new(v, ExcelDateTimeType::DateTime, is_1904).as_datetime();
-}
-
-static mut ADD_RESULT: Option<NaiveDateTime> = None;
-fn rec_checked_add_signed(this: NaiveDateTime, rhs: TimeDelta) -> Option<NaiveDateTime> {
-    unsafe { ADD_RESULT }
-}
-/// totality, real TimeDelta::milliseconds, stubbed calendar addition
-#[kani::proof]
-#[kani::stub(chrono::NaiveDateTime::checked_add_signed, rec_checked_add_signed)]
-fn x_total_realms() {
-    let v: f64 = kani::any();
-    let is_1904: bool = kani::any();
-    let _ = ExcelDateTime::new(v, ExcelDateTimeType::DateTime, is_1904).as_datetime();
-}
-
-fn ymd_hms_milli(y: i32, m: u32, d: u32, h: u32, mi: u32, s: u32, ms: u32) -> Option<NaiveDateTime> {
-    Some(NaiveDate::from_ymd_opt(y, m, d).unwrap().and_hms_milli_opt(h, mi, s, ms).unwrap())
-}
-#[kani::proof]
-fn x_anchor_1() {
-    assert!(ExcelDateTime::new(1.0, ExcelDateTimeType::DateTime, false).as_datetime() == ymd_hms_milli(1900, 1, 1, 0, 0, 0, 0));
-    assert!(ExcelDateTime::new(2958465.0, ExcelDateTimeType::DateTime, false).as_datetime() == ymd_hms_milli(9999, 12, 31, 0, 0, 0, 0));
-    assert!(ExcelDateTime::new(0.0, ExcelDateTimeType::DateTime, true).as_datetime() == ymd_hms_milli(1904, 1, 1, 0, 0, 0, 0));
-    assert!(ExcelDateTime::new(1e20, ExcelDateTimeType::DateTime, true).as_datetime() == None);
-}
-
-/// |ms * 2^s - N| <= 2^s * (1/2 + 1/16) where N / 2^s is the exact real product f * 86_400_000
-fn tol_1900(e_lo: i32, e_hi: i32) {
-    let e: i32 = kani::any();
-    kani::assume(e_lo <= e && e <= e_hi);
+// ------------------------------------------------------------------ (A2) all f64 serials, rounding to the millisecond
+/// v in [2^e, 2^(e+1)), v < LAST_SERIAL, 1900 system: | ms - f * 86_400_000 | <= 1/2 + 1/16, f = v (+1 below 60) as real numbers.
+/// (1/2: rounding to the millisecond; 1/16 ms: allowance for binary64 rounding of the product and of `v + 1`. For whole-day v the
+/// right-hand side is an integer, so the bound implies equality.)
+fn tol_1900(e: i32) {
     let m: u64 = kani::any();
     kani::assume(m < (1u64 << 52));
-    let v = f64::from_bits((((1023 + e) as u64) << 52) | m);
-    kani::assume(v < 2958466.0);
-    kani::cover!(v == 59.5);
+    let v = mk(e, m, false);
+    kani::assume(v < LAST_SERIAL);
+    kani::cover!(m == 0);
     let ms = ms_of(v, false);
-    // exact value of v: (2^52 + m) * 2^(e-52); shim adds 1 below 60
-    let s = (52 - e) as u32; // v = mant / 2^s, s in 31..=80
+    let s = (52 - e) as u32; // v = mant / 2^s
     let mant = (1u128 << 52) + m as u128;
-    // exact f * 2^s
-    let fnum: u128 = if v >= 60.0 { mant } else { mant + (1u128 << s) };
-    // exact product * 2^s = fnum * 84375 * 1024 ; compare ms * 2^s
+    let fnum: u128 = if v >= 60.0 { mant } else { mant + (1u128 << s) }; // f * 2^s
+    assert!(ms >= 0);
     let lhs: u128 = (ms as u128) << s;
     let rhs: u128 = fnum * 84375 * 1024;
     let tol: u128 = (1u128 << (s - 1)) + (1u128 << (s - 4));
-    assert!(ms >= 0);
     assert!(lhs <= rhs + tol && rhs <= lhs + tol);
 }
-#[kani::proof]
-#[kani::stub(chrono::TimeDelta::milliseconds, rec_milliseconds)]
-fn x_tol_e15() {
-    tol_1900(15, 15);
+/// |v| < 2^-28 day (0.32 ms), zeros and subnormals included: serial 0, i.e. 1899-12-31T00:00:00.000 exactly
+fn tiny_1900() {
+    let bits: u64 = kani::any();
+    kani::assume(((bits >> 52) & 0x7ff) < (1023 - 28));
+    let v = f64::from_bits(bits);
+    kani::cover!(v == 0.0);
+    kani::cover!(v < 0.0);
+    assert!(ms_of(v, false) == DAY_MS);
 }
-#[kani::proof]
-#[kani::stub(chrono::TimeDelta::milliseconds, rec_milliseconds)]
-fn x_tol_e5() {
-    tol_1900(5, 5);
+/// 1904 system: same instant as the 1900-system serial v + 1462 (for every f64 whose shifted value is not below 60, NaN included)
+fn sys1904_link() {
+    let v: f64 = kani::any();
+    kani::assume(!(v + 1462.0 < 60.0));
+    kani::cover!(v == 0.0);
+    assert!(ms_of(v, true) == ms_of(v + 1462.0, false));
 }
-#[kani::proof]
-#[kani::stub(chrono::TimeDelta::milliseconds, rec_milliseconds)]
-fn x_tol_all() {
-    tol_1900(-28, 21);
-}
-
-#[kani::proof]
-#[kani::stub(chrono::TimeDelta::milliseconds, rec_milliseconds)]
-fn x_mono_f64() {
-    let a: f64 = kani::any();
-    let b: f64 = kani::any();
-    kani::assume(61.0 <= a && a <= b && b < 2958466.0);
-    assert!(ms_of(a, false) <= ms_of(b, false));
-}
-#[kani::proof]
-#[kani::stub(chrono::TimeDelta::milliseconds, rec_milliseconds)]
-fn x_mono_quarter_all() {
-    let i: u32 = kani::any();
-    let j: u32 = kani::any();
-    kani::assume(i <= j && j <= 2958466 * 4);
-    kani::assume(!(59 * 4 <= i && i < 61 * 4) && !(59 * 4 <= j && j < 61 * 4));
-    let a = i as f64 / 4.0;
-    let b = j as f64 / 4.0;
-    assert!(ms_of(a, false) <= ms_of(b, false));
+/// 1900 system, any f64: the offset from 1899-12-30 is the duration ("serial times 24h") of the serial, shifted by one day below 60
+fn shim_link() {
+    let v: f64 = kani::any();
+    kani::cover!(v == 59.0);
+    kani::cover!(v == 61.0);
+    let f = if v >= 60.0 { v } else { v + 1.0 };
+    assert!(ms_of(v, false) == dur_ms_of(f));
 }
 
-fn dyadic14_1900(lo: u64, hi: u64) {
+// ------------------------------------------------------------------ (A3) exact lattices: product exactly representable, ties away from zero
+/// v = q / 2^30 < 64: f = v (+1 below 60) has at most 37 significant bits, f * 86_400_000 = qq * 84375 / 2^20 exactly
+fn exact_lo(lo: u64, hi: u64) {
     let q: u64 = kani::any();
     kani::assume(lo <= q && q <= hi);
     kani::cover!(q == lo);
     kani::cover!(q == hi);
-    let v = q as f64 * (1.0 / 16384.0);
+    let v = q as f64 * (1.0 / 1073741824.0);
     let ms = ms_of(v, false);
-    let qq = if q >= 60 << 14 { q as i64 } else { q as i64 + (1 << 14) };
-    assert!(ms == (qq * 84375 + 8) >> 4);
+    let qq = if q >= (60u64 << 30) { q } else { q + (1u64 << 30) };
+    assert!(ms as u64 == (qq * 84375 + (1 << 19)) >> 20 && ms >= 0);
 }
-#[kani::proof]
-#[kani::stub(chrono::TimeDelta::milliseconds, rec_milliseconds)]
-fn x_dy14_hi() {
-    dyadic14_1900(1 << 30, (2958466 << 14) - 1);
-}
-#[kani::proof]
-#[kani::stub(chrono::TimeDelta::milliseconds, rec_milliseconds)]
-fn x_dy14_all() {
-    dyadic14_1900(0, (2958466 << 14) - 1);
+/// v in [2^e, 2^(e+1)), 6 <= e <= 21, low 17 fraction bits zero: v = k36 * 2^(e-35), product = k36 * 84375 / 2^(25-e) exactly
+fn exact_hi(e: i32) {
+    let k: u64 = kani::any();
+    kani::assume(k < (1u64 << 35));
+    let v = mk(e, k << 17, false);
+    kani::assume(v < LAST_SERIAL);
+    kani::cover!(k == 1);
+    let ms = ms_of(v, false);
+    let k36 = (1u64 << 35) + k;
+    let sh = (25 - e) as u32;
+    assert!(ms as u64 == (k36 * 84375 + (1u64 << (sh - 1))) >> sh && ms >= 0);
 }
 
-#[kani::proof]
-fn x_total_excl() {
+// ------------------------------------------------------------------ (A4) totality and None paths (real chrono, nothing stubbed)
+fn total_datetime(above_min: bool) {
     let v: f64 = kani::any();
     let is_1904: bool = kani::any();
-    kani::assume(!(v <= -1.0e11));
+    if above_min {
+        // (v + 1462) * 86_400_000 > -2^63  <=>  v > -1.0675e11
+        kani::assume(!(v <= -1.0e11));
+    }
+    kani::cover!(v.is_nan());
+    kani::cover!(v == f64::INFINITY);
+    kani::cover!(v < 0.0);
     let _ = ExcelDateTime::new(v, ExcelDateTimeType::DateTime, is_1904).as_datetime();
 }
+/// chrono's NaiveDate spans years -262143..=262142, i.e. fewer than 1.0e8 days either side of 1899-12-30
+fn beyond_calendar() {
+    let v: f64 = kani::any();
+    let is_1904: bool = kani::any();
+    kani::assume(v >= 1.0e8 || (v <= -1.01e8 && v > -1.0e11));
+    kani::cover!(v == f64::INFINITY);
+    kani::cover!(v < 0.0);
+    assert!(ExcelDateTime::new(v, ExcelDateTimeType::DateTime, is_1904).as_datetime().is_none());
+}
+fn span_is_some() {
+    let v: f64 = kani::any();
+    let is_1904: bool = kani::any();
+    kani::assume(v >= 0.0 && v < LAST_SERIAL);
+    kani::cover!(v == 0.0);
+    assert!(ExcelDateTime::new(v, ExcelDateTimeType::DateTime, is_1904).as_datetime().is_some());
+}
+fn nan_is_none() {
+    let v: f64 = kani::any();
+    kani::assume(v.is_nan());
+    kani::cover!(true);
+    assert!(ExcelDateTime::new(v, ExcelDateTimeType::DateTime, kani::any()).as_datetime().is_none());
+}
+fn total_duration(above_min: bool) {
+    let v: f64 = kani::any();
+    if above_min {
+        kani::assume(!(v <= -1.0e11));
+    }
+    kani::cover!(v.is_nan());
+    kani::cover!(v < 0.0);
+    let r = ExcelDateTime::new(v, ExcelDateTimeType::TimeDelta, kani::any()).as_duration();
+    assert!(r.is_some() || !above_min);
+}
 
+// ------------------------------------------------------------------ (A5) monotonicity of the observable on grids i/den
+fn mono_grid(den: u32, lo: u32, hi: u32, outside_59_61: bool) {
+    let i: u32 = kani::any();
+    let j: u32 = kani::any();
+    kani::assume(lo <= i && i <= j && j <= hi);
+    if outside_59_61 {
+        kani::assume(!(59 * den <= i && i < 61 * den) && !(59 * den <= j && j < 61 * den));
+    }
+    kani::cover!(i < j);
+    let a = i as f64 / den as f64;
+    let b = j as f64 / den as f64;
+    assert!(ms_of(a, false) <= ms_of(b, false));
+}
+
+// ------------------------------------------------------------------ (D) as_duration
+fn dur_whole_days(lo: u32, hi: u32) {
+    let n: u32 = kani::any();
+    kani::assume(lo <= n && n <= hi);
+    let neg: bool = kani::any();
+    kani::cover!(n == lo && neg);
+    kani::cover!(n == hi && !neg);
+    let v = if neg { -(n as f64) } else { n as f64 };
+    let ms = dur_ms_of(v);
+    assert!(ms == if neg { -(n as i64) * DAY_MS } else { n as i64 * DAY_MS });
+}
+/// |v| in [2^e, 2^(e+1)), either sign: | ms - v * 86_400_000 | <= 1/2 + 1/16
+fn dur_tol(e: i32) {
+    let m: u64 = kani::any();
+    kani::assume(m < (1u64 << 52));
+    let neg: bool = kani::any();
+    let v = mk(e, m, neg);
+    kani::cover!(neg);
+    kani::cover!(!neg);
+    let ms = dur_ms_of(v);
+    let s = (52 - e) as u32;
+    let mant = (1u128 << 52) + m as u128;
+    assert!(if neg { ms <= 0 } else { ms >= 0 });
+    let lhs: u128 = (ms.unsigned_abs() as u128) << s;
+    let rhs: u128 = mant * 84375 * 1024;
+    let tol: u128 = (1u128 << (s - 1)) + (1u128 << (s - 4));
+    assert!(lhs <= rhs + tol && rhs <= lhs + tol);
+}
+fn dur_tiny() {
+    let bits: u64 = kani::any();
+    kani::assume(((bits >> 52) & 0x7ff) < (1023 - 28));
+    let v = f64::from_bits(bits);
+    kani::cover!(v < 0.0);
+    assert!(dur_ms_of(v) == 0);
+}
+
+// ------------------------------------------------------------------ (C) trait-level conversions
 static mut REC_SELF: (u64, u8, bool) = (0, 0, false);
 static mut STUB_DT: Option<NaiveDateTime> = None;
+static mut STUB_DUR: Option<TimeDelta> = None;
+static mut REC_DUR_CALLS: u32 = 0;
 fn rec_as_datetime(this: &ExcelDateTime) -> Option<NaiveDateTime> {
     unsafe {
         REC_CALLS += 1;
         REC_SELF = crate::datatype::verif_kani_datatype::edt_parts(this);
         STUB_DT
+    }
+}
+fn rec_as_duration(this: &ExcelDateTime) -> Option<TimeDelta> {
+    unsafe {
+        REC_DUR_CALLS += 1;
+        REC_SELF = crate::datatype::verif_kani_datatype::edt_parts(this);
+        STUB_DUR
     }
 }
 fn any_naive_datetime() -> NaiveDateTime {
@@ -266,58 +279,115 @@ fn any_naive_datetime() -> NaiveDateTime {
     kani::assume(s < 86400 && n < 1_000_000_000);
     NaiveDate::from_yo_opt(y, o).unwrap().and_time(NaiveTime::from_num_seconds_from_midnight_opt(s, n).unwrap())
 }
-#[kani::proof]
-#[kani::stub(crate::datatype::ExcelDateTime::as_datetime, rec_as_datetime)]
-fn x_trait_float() {
+fn any_edt() -> ExcelDateTime {
+    let ty = if kani::any() { ExcelDateTimeType::TimeDelta } else { ExcelDateTimeType::DateTime };
+    ExcelDateTime::new(kani::any(), ty, kani::any())
+}
+fn setup_stub_dt() -> Option<NaiveDateTime> {
     let dt = if kani::any() { Some(any_naive_datetime()) } else { None };
     unsafe {
         STUB_DT = dt;
-        REC_CALLS = 0;
     }
-    let f: f64 = kani::any();
-    let r = Data::Float(f).as_datetime();
+    dt
+}
+fn setup_stub_dur() -> Option<TimeDelta> {
+    let s: i32 = kani::any();
+    let n: u32 = kani::any();
+    kani::assume(n < 1_000_000_000);
+    let d = if kani::any() { TimeDelta::new(s as i64, n) } else { None };
     unsafe {
-        assert!(REC_CALLS == 1);
-        assert!(REC_SELF == (f.to_bits(), 1, false));
+        STUB_DUR = d;
     }
+    d
+}
+fn calls() -> u32 {
+    unsafe { REC_CALLS }
+}
+fn reset_calls() {
+    unsafe {
+        REC_CALLS = 0;
+        REC_DUR_CALLS = 0;
+    }
+}
+/// a plain Int/Float cell converts like the 1900-system date-time with the same value:
+/// as_datetime is exactly `ExcelDateTime{value, DateTime, 1900}.as_datetime()`, as_date / as_time are its components
+fn trait_plain_datetime<D: DataType>(cell: D, value_bits: u64) {
+    let dt = setup_stub_dt();
+    kani::cover!(dt.is_some());
+    kani::cover!(dt.is_none());
+    reset_calls();
+    let r = cell.as_datetime();
+    assert!(calls() == 1);
+    assert!(unsafe { REC_SELF } == (value_bits, 1, false));
     assert!(r == dt);
-    assert!(Data::Float(f).as_date() == dt.map(|d| d.date()));
-    assert!(Data::Float(f).as_time() == dt.map(|d| d.time()));
+    reset_calls();
+    let d = cell.as_date();
+    assert!(calls() == 1 && unsafe { REC_SELF } == (value_bits, 1, false));
+    assert!(d == dt.map(|x| x.date()));
+    reset_calls();
+    let t = cell.as_time();
+    assert!(calls() == 1 && unsafe { REC_SELF } == (value_bits, 1, false));
+    assert!(t == dt.map(|x| x.time()));
+}
+/// a DateTime cell converts through its own ExcelDateTime (value, type tag and date system untouched)
+fn trait_datetime_cell<D: DataType>(cell: D, e: ExcelDateTime) {
+    let parts = crate::datatype::verif_kani_datatype::edt_parts(&e);
+    let dt = setup_stub_dt();
+    let du = setup_stub_dur();
+    kani::cover!(dt.is_some() && du.is_some());
+    reset_calls();
+    assert!(cell.as_datetime() == dt);
+    assert!(calls() == 1 && unsafe { REC_SELF } == parts);
+    reset_calls();
+    assert!(cell.as_date() == dt.map(|x| x.date()));
+    assert!(calls() == 1 && unsafe { REC_SELF } == parts);
+    reset_calls();
+    assert!(cell.as_time() == dt.map(|x| x.time()));
+    assert!(calls() == 1 && unsafe { REC_SELF } == parts);
+    reset_calls();
+    assert!(cell.as_duration() == du);
+    assert!(unsafe { REC_DUR_CALLS } == 1 && unsafe { REC_SELF } == parts);
+}
+/// "plain Int/Float cells convert like 1900-system date-times", read for as_duration: same result as the DateTime cell of that value
+fn trait_plain_duration<D: DataType>(float_cell: D, int_cell: D) {
+    let du = setup_stub_dur();
+    kani::cover!(du.is_some());
+    reset_calls();
+    assert!(float_cell.as_duration() == du);
+    assert!(int_cell.as_duration() == du);
 }
 
-fn mono_bucket(e: i32, excl: bool) {
-    let ma: u64 = kani::any();
-    let mb: u64 = kani::any();
-    kani::assume(ma <= mb && mb < (1u64 << 52));
-    let a = f64::from_bits((((1023 + e) as u64) << 52) | ma);
-    let b = f64::from_bits((((1023 + e) as u64) << 52) | mb);
-    if excl {
-        kani::assume(!(59.0 <= a && a < 61.0) && !(59.0 <= b && b < 61.0));
-    }
-    assert!(ms_of(a, false) <= ms_of(b, false));
+// ------------------------------------------------------------------ (B) anchors on the real, unstubbed function
+fn anchor(v: f64, is_1904: bool, y: i32, mo: u32, d: u32, h: u32, mi: u32, s: u32, ms: u32) {
+    let want = NaiveDate::from_ymd_opt(y, mo, d).unwrap().and_hms_milli_opt(h, mi, s, ms).unwrap();
+    assert!(ExcelDateTime::new(v, ExcelDateTimeType::DateTime, is_1904).as_datetime() == Some(want));
 }
-#[kani::proof]
-#[kani::stub(chrono::TimeDelta::milliseconds, rec_milliseconds)]
-fn x_mono_e15() {
-    mono_bucket(15, false);
+fn anchor_none(v: f64, is_1904: bool) {
+    assert!(ExcelDateTime::new(v, ExcelDateTimeType::DateTime, is_1904).as_datetime().is_none());
 }
-#[kani::proof]
-#[kani::stub(chrono::TimeDelta::milliseconds, rec_milliseconds)]
-fn x_mono_e5_excl() {
-    mono_bucket(5, true);
+fn anchors_components() {
+    let d = NaiveDate::from_ymd_opt(2021, 10, 15);
+    let t = NaiveTime::from_hms_milli_opt(19, 0, 0, 0);
+    assert!(Data::Float(44484.7916666667).as_date() == d && Data::Float(44484.7916666667).as_time() == t);
+    assert!(DataRef::Float(44484.7916666667).as_date() == d && DataRef::Float(44484.7916666667).as_time() == t);
+    assert!(Data::Int(25569).as_date() == NaiveDate::from_ymd_opt(1970, 1, 1) && Data::Int(25569).as_time() == Some(NaiveTime::MIN));
+    assert!(DataRef::Int(1).as_date() == NaiveDate::from_ymd_opt(1900, 1, 1));
+    let c = Data::DateTime(ExcelDateTime::new(0.5, ExcelDateTimeType::DateTime, true));
+    assert!(c.as_date() == NaiveDate::from_ymd_opt(1904, 1, 1) && c.as_time() == NaiveTime::from_hms_opt(12, 0, 0));
+    assert!(Data::Float(1e20).as_date().is_none() && Data::Float(1e20).as_time().is_none());
 }
-#[kani::proof]
-#[kani::stub(chrono::TimeDelta::milliseconds, rec_milliseconds)]
-fn x_days_lo() {
-    whole_days_1900(0, 1023);
+fn anchors_duration() {
+    let e = |v: f64| ExcelDateTime::new(v, ExcelDateTimeType::TimeDelta, false).as_duration();
+    assert!(e(1.0) == Some(TimeDelta::hours(24)));
+    assert!(e(1.5) == Some(TimeDelta::hours(36)));
+    assert!(e(-0.25) == Some(TimeDelta::hours(-6)));
+    assert!(e(3.0 / 2048.0) == Some(TimeDelta::milliseconds(126563))); // 126562.5 ms, tie away from zero
+    assert!(e(-3.0 / 2048.0) == Some(TimeDelta::milliseconds(-126563)));
+    assert!(e(0.0) == Some(TimeDelta::zero()));
+    let c = Data::DateTime(ExcelDateTime::new(2.0, ExcelDateTimeType::TimeDelta, true));
+    assert!(c.as_duration() == Some(TimeDelta::hours(48)));
 }
-#[kani::proof]
-#[kani::stub(chrono::TimeDelta::milliseconds, rec_milliseconds)]
-fn x_days_mid() {
-    whole_days_1900(1024, 65535);
-}
-
-/// days since 1970-01-01 -> proleptic Gregorian (y, m, d); H. Hinnant's civil_from_days, independent of chrono
+/// days since 1970-01-01 -> proleptic Gregorian (y, m, d): H. Hinnant's `civil_from_days`, independent of chrono
 fn civil_from_days(z: i64) -> (i64, u32, u32) {
     let z = z + 719468;
     let era = (if z >= 0 { z } else { z - 146096 }) / 146097;
@@ -327,80 +397,1399 @@ fn civil_from_days(z: i64) -> (i64, u32, u32) {
     let doy = doe - (365 * yoe + yoe / 4 - yoe / 100);
     let mp = (5 * doy + 2) / 153;
     let d = (doy - (153 * mp + 2) / 5 + 1) as u32;
-    let m = if mp < 10 { mp + 3 } else { mp - 9 } as u32;
+    let m = (if mp < 10 { mp + 3 } else { mp - 9 }) as u32;
     (if m <= 2 { y + 1 } else { y }, m, d)
 }
+/// serial n >= 61 is the civil date n - 25569 days after 1970-01-01 (serial 25569), at 00:00:00.000
 fn civil_range(lo: u32, hi: u32) {
     let n: u32 = kani::any();
-    kani::assume(lo <= n && n <= hi);
+    kani::assume(lo <= n && n <= hi && n >= 61);
+    kani::cover!(n == hi);
     let r = ExcelDateTime::new(n as f64, ExcelDateTimeType::DateTime, false).as_datetime();
     let (y, m, d) = civil_from_days(n as i64 - 25569);
     let dt = r.unwrap();
     assert!(dt.year() as i64 == y && dt.month() == m && dt.day() == d);
     assert!(dt.time() == NaiveTime::MIN);
 }
-#[kani::proof]
-fn x_civil_0() {
-    civil_range(61, 65535);
-}
-#[kani::proof]
-fn x_civil_4k() {
-    civil_range(40000, 44095);
-}
 
-fn dur_ms_of(v: f64) -> i64 {
-    unsafe {
-        REC_CALLS = 0;
-    }
-    let r = ExcelDateTime::new(v, ExcelDateTimeType::TimeDelta, kani::any()).as_duration();
-    unsafe {
-        assert!(REC_CALLS == 1);
-        assert!(r.is_some());
-        REC_MS
-    }
-}
-fn dur_tol(e: i32) {
-    let m: u64 = kani::any();
-    kani::assume(m < (1u64 << 52));
-    let neg: bool = kani::any();
-    let v = f64::from_bits(((neg as u64) << 63) | (((1023 + e) as u64) << 52) | m);
-    let ms = dur_ms_of(v);
-    let s = (52 - e) as u32;
-    let mant = (1u128 << 52) + m as u128;
-    assert!(if neg { ms <= 0 } else { ms >= 0 });
-    let lhs: u128 = (ms.unsigned_abs() as u128) << s;
-    let rhs: u128 = mant * 84375 * 1024;
-    let tol: u128 = (1u128 << (s - 1)) + (1u128 << (s - 4));
-    assert!(lhs <= rhs + tol && rhs <= lhs + tol);
+// ===================== harness instantiations (one #[kani::proof] per registered obligation) =====================
+#[kani::proof]
+#[kani::stub(chrono::TimeDelta::milliseconds, rec_milliseconds)]
+fn days1900_e0() {
+    whole_days_1900(0, 1);
 }
 #[kani::proof]
 #[kani::stub(chrono::TimeDelta::milliseconds, rec_milliseconds)]
-fn x_dur_tol_e15() {
+fn days1900_e1() {
+    whole_days_1900(2, 3);
+}
+#[kani::proof]
+#[kani::stub(chrono::TimeDelta::milliseconds, rec_milliseconds)]
+fn days1900_e2() {
+    whole_days_1900(4, 7);
+}
+#[kani::proof]
+#[kani::stub(chrono::TimeDelta::milliseconds, rec_milliseconds)]
+fn days1900_e3() {
+    whole_days_1900(8, 15);
+}
+#[kani::proof]
+#[kani::stub(chrono::TimeDelta::milliseconds, rec_milliseconds)]
+fn days1900_e4() {
+    whole_days_1900(16, 31);
+}
+#[kani::proof]
+#[kani::stub(chrono::TimeDelta::milliseconds, rec_milliseconds)]
+fn days1900_e5() {
+    whole_days_1900(32, 63);
+}
+#[kani::proof]
+#[kani::stub(chrono::TimeDelta::milliseconds, rec_milliseconds)]
+fn days1900_e6() {
+    whole_days_1900(64, 127);
+}
+#[kani::proof]
+#[kani::stub(chrono::TimeDelta::milliseconds, rec_milliseconds)]
+fn days1900_e7() {
+    whole_days_1900(128, 255);
+}
+#[kani::proof]
+#[kani::stub(chrono::TimeDelta::milliseconds, rec_milliseconds)]
+fn days1900_e8() {
+    whole_days_1900(256, 511);
+}
+#[kani::proof]
+#[kani::stub(chrono::TimeDelta::milliseconds, rec_milliseconds)]
+fn days1900_e9() {
+    whole_days_1900(512, 1023);
+}
+#[kani::proof]
+#[kani::stub(chrono::TimeDelta::milliseconds, rec_milliseconds)]
+fn days1900_e10() {
+    whole_days_1900(1024, 2047);
+}
+#[kani::proof]
+#[kani::stub(chrono::TimeDelta::milliseconds, rec_milliseconds)]
+fn days1900_e11() {
+    whole_days_1900(2048, 4095);
+}
+#[kani::proof]
+#[kani::stub(chrono::TimeDelta::milliseconds, rec_milliseconds)]
+fn days1900_e12() {
+    whole_days_1900(4096, 8191);
+}
+#[kani::proof]
+#[kani::stub(chrono::TimeDelta::milliseconds, rec_milliseconds)]
+fn days1900_e13() {
+    whole_days_1900(8192, 16383);
+}
+#[kani::proof]
+#[kani::stub(chrono::TimeDelta::milliseconds, rec_milliseconds)]
+fn days1900_e14() {
+    whole_days_1900(16384, 32767);
+}
+#[kani::proof]
+#[kani::stub(chrono::TimeDelta::milliseconds, rec_milliseconds)]
+fn days1900_e15() {
+    whole_days_1900(32768, 65535);
+}
+#[kani::proof]
+#[kani::stub(chrono::TimeDelta::milliseconds, rec_milliseconds)]
+fn days1900_e16() {
+    whole_days_1900(65536, 131071);
+}
+#[kani::proof]
+#[kani::stub(chrono::TimeDelta::milliseconds, rec_milliseconds)]
+fn days1900_e17() {
+    whole_days_1900(131072, 262143);
+}
+#[kani::proof]
+#[kani::stub(chrono::TimeDelta::milliseconds, rec_milliseconds)]
+fn days1900_e18() {
+    whole_days_1900(262144, 524287);
+}
+#[kani::proof]
+#[kani::stub(chrono::TimeDelta::milliseconds, rec_milliseconds)]
+fn days1900_e19() {
+    whole_days_1900(524288, 1048575);
+}
+#[kani::proof]
+#[kani::stub(chrono::TimeDelta::milliseconds, rec_milliseconds)]
+fn days1900_e20() {
+    whole_days_1900(1048576, 2097151);
+}
+#[kani::proof]
+#[kani::stub(chrono::TimeDelta::milliseconds, rec_milliseconds)]
+fn days1900_e21() {
+    whole_days_1900(2097152, 2958465);
+}
+#[kani::proof]
+#[kani::stub(chrono::TimeDelta::milliseconds, rec_milliseconds)]
+fn days1904_e0() {
+    whole_days_1904(0, 1);
+}
+#[kani::proof]
+#[kani::stub(chrono::TimeDelta::milliseconds, rec_milliseconds)]
+fn days1904_e1() {
+    whole_days_1904(2, 3);
+}
+#[kani::proof]
+#[kani::stub(chrono::TimeDelta::milliseconds, rec_milliseconds)]
+fn days1904_e2() {
+    whole_days_1904(4, 7);
+}
+#[kani::proof]
+#[kani::stub(chrono::TimeDelta::milliseconds, rec_milliseconds)]
+fn days1904_e3() {
+    whole_days_1904(8, 15);
+}
+#[kani::proof]
+#[kani::stub(chrono::TimeDelta::milliseconds, rec_milliseconds)]
+fn days1904_e4() {
+    whole_days_1904(16, 31);
+}
+#[kani::proof]
+#[kani::stub(chrono::TimeDelta::milliseconds, rec_milliseconds)]
+fn days1904_e5() {
+    whole_days_1904(32, 63);
+}
+#[kani::proof]
+#[kani::stub(chrono::TimeDelta::milliseconds, rec_milliseconds)]
+fn days1904_e6() {
+    whole_days_1904(64, 127);
+}
+#[kani::proof]
+#[kani::stub(chrono::TimeDelta::milliseconds, rec_milliseconds)]
+fn days1904_e7() {
+    whole_days_1904(128, 255);
+}
+#[kani::proof]
+#[kani::stub(chrono::TimeDelta::milliseconds, rec_milliseconds)]
+fn days1904_e8() {
+    whole_days_1904(256, 511);
+}
+#[kani::proof]
+#[kani::stub(chrono::TimeDelta::milliseconds, rec_milliseconds)]
+fn days1904_e9() {
+    whole_days_1904(512, 1023);
+}
+#[kani::proof]
+#[kani::stub(chrono::TimeDelta::milliseconds, rec_milliseconds)]
+fn days1904_e10() {
+    whole_days_1904(1024, 2047);
+}
+#[kani::proof]
+#[kani::stub(chrono::TimeDelta::milliseconds, rec_milliseconds)]
+fn days1904_e11() {
+    whole_days_1904(2048, 4095);
+}
+#[kani::proof]
+#[kani::stub(chrono::TimeDelta::milliseconds, rec_milliseconds)]
+fn days1904_e12() {
+    whole_days_1904(4096, 8191);
+}
+#[kani::proof]
+#[kani::stub(chrono::TimeDelta::milliseconds, rec_milliseconds)]
+fn days1904_e13() {
+    whole_days_1904(8192, 16383);
+}
+#[kani::proof]
+#[kani::stub(chrono::TimeDelta::milliseconds, rec_milliseconds)]
+fn days1904_e14() {
+    whole_days_1904(16384, 32767);
+}
+#[kani::proof]
+#[kani::stub(chrono::TimeDelta::milliseconds, rec_milliseconds)]
+fn days1904_e15() {
+    whole_days_1904(32768, 65535);
+}
+#[kani::proof]
+#[kani::stub(chrono::TimeDelta::milliseconds, rec_milliseconds)]
+fn days1904_e16() {
+    whole_days_1904(65536, 131071);
+}
+#[kani::proof]
+#[kani::stub(chrono::TimeDelta::milliseconds, rec_milliseconds)]
+fn days1904_e17() {
+    whole_days_1904(131072, 262143);
+}
+#[kani::proof]
+#[kani::stub(chrono::TimeDelta::milliseconds, rec_milliseconds)]
+fn days1904_e18() {
+    whole_days_1904(262144, 524287);
+}
+#[kani::proof]
+#[kani::stub(chrono::TimeDelta::milliseconds, rec_milliseconds)]
+fn days1904_e19() {
+    whole_days_1904(524288, 1048575);
+}
+#[kani::proof]
+#[kani::stub(chrono::TimeDelta::milliseconds, rec_milliseconds)]
+fn days1904_e20() {
+    whole_days_1904(1048576, 2097151);
+}
+#[kani::proof]
+#[kani::stub(chrono::TimeDelta::milliseconds, rec_milliseconds)]
+fn days1904_e21() {
+    whole_days_1904(2097152, 2958465);
+}
+#[kani::proof]
+#[kani::stub(chrono::TimeDelta::milliseconds, rec_milliseconds)]
+fn tol1900_em28() {
+    tol_1900(-28);
+}
+#[kani::proof]
+#[kani::stub(chrono::TimeDelta::milliseconds, rec_milliseconds)]
+fn tol1900_em27() {
+    tol_1900(-27);
+}
+#[kani::proof]
+#[kani::stub(chrono::TimeDelta::milliseconds, rec_milliseconds)]
+fn tol1900_em26() {
+    tol_1900(-26);
+}
+#[kani::proof]
+#[kani::stub(chrono::TimeDelta::milliseconds, rec_milliseconds)]
+fn tol1900_em25() {
+    tol_1900(-25);
+}
+#[kani::proof]
+#[kani::stub(chrono::TimeDelta::milliseconds, rec_milliseconds)]
+fn tol1900_em24() {
+    tol_1900(-24);
+}
+#[kani::proof]
+#[kani::stub(chrono::TimeDelta::milliseconds, rec_milliseconds)]
+fn tol1900_em23() {
+    tol_1900(-23);
+}
+#[kani::proof]
+#[kani::stub(chrono::TimeDelta::milliseconds, rec_milliseconds)]
+fn tol1900_em22() {
+    tol_1900(-22);
+}
+#[kani::proof]
+#[kani::stub(chrono::TimeDelta::milliseconds, rec_milliseconds)]
+fn tol1900_em21() {
+    tol_1900(-21);
+}
+#[kani::proof]
+#[kani::stub(chrono::TimeDelta::milliseconds, rec_milliseconds)]
+fn tol1900_em20() {
+    tol_1900(-20);
+}
+#[kani::proof]
+#[kani::stub(chrono::TimeDelta::milliseconds, rec_milliseconds)]
+fn tol1900_em19() {
+    tol_1900(-19);
+}
+#[kani::proof]
+#[kani::stub(chrono::TimeDelta::milliseconds, rec_milliseconds)]
+fn tol1900_em18() {
+    tol_1900(-18);
+}
+#[kani::proof]
+#[kani::stub(chrono::TimeDelta::milliseconds, rec_milliseconds)]
+fn tol1900_em17() {
+    tol_1900(-17);
+}
+#[kani::proof]
+#[kani::stub(chrono::TimeDelta::milliseconds, rec_milliseconds)]
+fn tol1900_em16() {
+    tol_1900(-16);
+}
+#[kani::proof]
+#[kani::stub(chrono::TimeDelta::milliseconds, rec_milliseconds)]
+fn tol1900_em15() {
+    tol_1900(-15);
+}
+#[kani::proof]
+#[kani::stub(chrono::TimeDelta::milliseconds, rec_milliseconds)]
+fn tol1900_em14() {
+    tol_1900(-14);
+}
+#[kani::proof]
+#[kani::stub(chrono::TimeDelta::milliseconds, rec_milliseconds)]
+fn tol1900_em13() {
+    tol_1900(-13);
+}
+#[kani::proof]
+#[kani::stub(chrono::TimeDelta::milliseconds, rec_milliseconds)]
+fn tol1900_em12() {
+    tol_1900(-12);
+}
+#[kani::proof]
+#[kani::stub(chrono::TimeDelta::milliseconds, rec_milliseconds)]
+fn tol1900_em11() {
+    tol_1900(-11);
+}
+#[kani::proof]
+#[kani::stub(chrono::TimeDelta::milliseconds, rec_milliseconds)]
+fn tol1900_em10() {
+    tol_1900(-10);
+}
+#[kani::proof]
+#[kani::stub(chrono::TimeDelta::milliseconds, rec_milliseconds)]
+fn tol1900_em9() {
+    tol_1900(-9);
+}
+#[kani::proof]
+#[kani::stub(chrono::TimeDelta::milliseconds, rec_milliseconds)]
+fn tol1900_em8() {
+    tol_1900(-8);
+}
+#[kani::proof]
+#[kani::stub(chrono::TimeDelta::milliseconds, rec_milliseconds)]
+fn tol1900_em7() {
+    tol_1900(-7);
+}
+#[kani::proof]
+#[kani::stub(chrono::TimeDelta::milliseconds, rec_milliseconds)]
+fn tol1900_em6() {
+    tol_1900(-6);
+}
+#[kani::proof]
+#[kani::stub(chrono::TimeDelta::milliseconds, rec_milliseconds)]
+fn tol1900_em5() {
+    tol_1900(-5);
+}
+#[kani::proof]
+#[kani::stub(chrono::TimeDelta::milliseconds, rec_milliseconds)]
+fn tol1900_em4() {
+    tol_1900(-4);
+}
+#[kani::proof]
+#[kani::stub(chrono::TimeDelta::milliseconds, rec_milliseconds)]
+fn tol1900_em3() {
+    tol_1900(-3);
+}
+#[kani::proof]
+#[kani::stub(chrono::TimeDelta::milliseconds, rec_milliseconds)]
+fn tol1900_em2() {
+    tol_1900(-2);
+}
+#[kani::proof]
+#[kani::stub(chrono::TimeDelta::milliseconds, rec_milliseconds)]
+fn tol1900_em1() {
+    tol_1900(-1);
+}
+#[kani::proof]
+#[kani::stub(chrono::TimeDelta::milliseconds, rec_milliseconds)]
+fn tol1900_e0() {
+    tol_1900(0);
+}
+#[kani::proof]
+#[kani::stub(chrono::TimeDelta::milliseconds, rec_milliseconds)]
+fn tol1900_e1() {
+    tol_1900(1);
+}
+#[kani::proof]
+#[kani::stub(chrono::TimeDelta::milliseconds, rec_milliseconds)]
+fn tol1900_e2() {
+    tol_1900(2);
+}
+#[kani::proof]
+#[kani::stub(chrono::TimeDelta::milliseconds, rec_milliseconds)]
+fn tol1900_e3() {
+    tol_1900(3);
+}
+#[kani::proof]
+#[kani::stub(chrono::TimeDelta::milliseconds, rec_milliseconds)]
+fn tol1900_e4() {
+    tol_1900(4);
+}
+#[kani::proof]
+#[kani::stub(chrono::TimeDelta::milliseconds, rec_milliseconds)]
+fn tol1900_e5() {
+    tol_1900(5);
+}
+#[kani::proof]
+#[kani::stub(chrono::TimeDelta::milliseconds, rec_milliseconds)]
+fn tol1900_e6() {
+    tol_1900(6);
+}
+#[kani::proof]
+#[kani::stub(chrono::TimeDelta::milliseconds, rec_milliseconds)]
+fn tol1900_e7() {
+    tol_1900(7);
+}
+#[kani::proof]
+#[kani::stub(chrono::TimeDelta::milliseconds, rec_milliseconds)]
+fn tol1900_e8() {
+    tol_1900(8);
+}
+#[kani::proof]
+#[kani::stub(chrono::TimeDelta::milliseconds, rec_milliseconds)]
+fn tol1900_e9() {
+    tol_1900(9);
+}
+#[kani::proof]
+#[kani::stub(chrono::TimeDelta::milliseconds, rec_milliseconds)]
+fn tol1900_e10() {
+    tol_1900(10);
+}
+#[kani::proof]
+#[kani::stub(chrono::TimeDelta::milliseconds, rec_milliseconds)]
+fn tol1900_e11() {
+    tol_1900(11);
+}
+#[kani::proof]
+#[kani::stub(chrono::TimeDelta::milliseconds, rec_milliseconds)]
+fn tol1900_e12() {
+    tol_1900(12);
+}
+#[kani::proof]
+#[kani::stub(chrono::TimeDelta::milliseconds, rec_milliseconds)]
+fn tol1900_e13() {
+    tol_1900(13);
+}
+#[kani::proof]
+#[kani::stub(chrono::TimeDelta::milliseconds, rec_milliseconds)]
+fn tol1900_e14() {
+    tol_1900(14);
+}
+#[kani::proof]
+#[kani::stub(chrono::TimeDelta::milliseconds, rec_milliseconds)]
+fn tol1900_e15() {
+    tol_1900(15);
+}
+#[kani::proof]
+#[kani::stub(chrono::TimeDelta::milliseconds, rec_milliseconds)]
+fn tol1900_e16() {
+    tol_1900(16);
+}
+#[kani::proof]
+#[kani::stub(chrono::TimeDelta::milliseconds, rec_milliseconds)]
+fn tol1900_e17() {
+    tol_1900(17);
+}
+#[kani::proof]
+#[kani::stub(chrono::TimeDelta::milliseconds, rec_milliseconds)]
+fn tol1900_e18() {
+    tol_1900(18);
+}
+#[kani::proof]
+#[kani::stub(chrono::TimeDelta::milliseconds, rec_milliseconds)]
+fn tol1900_e19() {
+    tol_1900(19);
+}
+#[kani::proof]
+#[kani::stub(chrono::TimeDelta::milliseconds, rec_milliseconds)]
+fn tol1900_e20() {
+    tol_1900(20);
+}
+#[kani::proof]
+#[kani::stub(chrono::TimeDelta::milliseconds, rec_milliseconds)]
+fn tol1900_e21() {
+    tol_1900(21);
+}
+#[kani::proof]
+#[kani::stub(chrono::TimeDelta::milliseconds, rec_milliseconds)]
+fn tol1900_tiny() {
+    tiny_1900();
+}
+#[kani::proof]
+#[kani::stub(chrono::TimeDelta::milliseconds, rec_milliseconds)]
+fn sys1904_is_1900_plus_1462() {
+    sys1904_link();
+}
+#[kani::proof]
+#[kani::stub(chrono::TimeDelta::milliseconds, rec_milliseconds)]
+fn datetime_offset_is_duration_of_shimmed_serial() {
+    shim_link();
+}
+#[kani::proof]
+#[kani::stub(chrono::TimeDelta::milliseconds, rec_milliseconds)]
+fn exact_lo_small() {
+    exact_lo(0, (1 << 12) - 1);
+}
+#[kani::proof]
+#[kani::stub(chrono::TimeDelta::milliseconds, rec_milliseconds)]
+fn exact_lo_q12() {
+    exact_lo(1 << 12, (1 << 13) - 1);
+}
+#[kani::proof]
+#[kani::stub(chrono::TimeDelta::milliseconds, rec_milliseconds)]
+fn exact_lo_q13() {
+    exact_lo(1 << 13, (1 << 14) - 1);
+}
+#[kani::proof]
+#[kani::stub(chrono::TimeDelta::milliseconds, rec_milliseconds)]
+fn exact_lo_q14() {
+    exact_lo(1 << 14, (1 << 15) - 1);
+}
+#[kani::proof]
+#[kani::stub(chrono::TimeDelta::milliseconds, rec_milliseconds)]
+fn exact_lo_q15() {
+    exact_lo(1 << 15, (1 << 16) - 1);
+}
+#[kani::proof]
+#[kani::stub(chrono::TimeDelta::milliseconds, rec_milliseconds)]
+fn exact_lo_q16() {
+    exact_lo(1 << 16, (1 << 17) - 1);
+}
+#[kani::proof]
+#[kani::stub(chrono::TimeDelta::milliseconds, rec_milliseconds)]
+fn exact_lo_q17() {
+    exact_lo(1 << 17, (1 << 18) - 1);
+}
+#[kani::proof]
+#[kani::stub(chrono::TimeDelta::milliseconds, rec_milliseconds)]
+fn exact_lo_q18() {
+    exact_lo(1 << 18, (1 << 19) - 1);
+}
+#[kani::proof]
+#[kani::stub(chrono::TimeDelta::milliseconds, rec_milliseconds)]
+fn exact_lo_q19() {
+    exact_lo(1 << 19, (1 << 20) - 1);
+}
+#[kani::proof]
+#[kani::stub(chrono::TimeDelta::milliseconds, rec_milliseconds)]
+fn exact_lo_q20() {
+    exact_lo(1 << 20, (1 << 21) - 1);
+}
+#[kani::proof]
+#[kani::stub(chrono::TimeDelta::milliseconds, rec_milliseconds)]
+fn exact_lo_q21() {
+    exact_lo(1 << 21, (1 << 22) - 1);
+}
+#[kani::proof]
+#[kani::stub(chrono::TimeDelta::milliseconds, rec_milliseconds)]
+fn exact_lo_q22() {
+    exact_lo(1 << 22, (1 << 23) - 1);
+}
+#[kani::proof]
+#[kani::stub(chrono::TimeDelta::milliseconds, rec_milliseconds)]
+fn exact_lo_q23() {
+    exact_lo(1 << 23, (1 << 24) - 1);
+}
+#[kani::proof]
+#[kani::stub(chrono::TimeDelta::milliseconds, rec_milliseconds)]
+fn exact_lo_q24() {
+    exact_lo(1 << 24, (1 << 25) - 1);
+}
+#[kani::proof]
+#[kani::stub(chrono::TimeDelta::milliseconds, rec_milliseconds)]
+fn exact_lo_q25() {
+    exact_lo(1 << 25, (1 << 26) - 1);
+}
+#[kani::proof]
+#[kani::stub(chrono::TimeDelta::milliseconds, rec_milliseconds)]
+fn exact_lo_q26() {
+    exact_lo(1 << 26, (1 << 27) - 1);
+}
+#[kani::proof]
+#[kani::stub(chrono::TimeDelta::milliseconds, rec_milliseconds)]
+fn exact_lo_q27() {
+    exact_lo(1 << 27, (1 << 28) - 1);
+}
+#[kani::proof]
+#[kani::stub(chrono::TimeDelta::milliseconds, rec_milliseconds)]
+fn exact_lo_q28() {
+    exact_lo(1 << 28, (1 << 29) - 1);
+}
+#[kani::proof]
+#[kani::stub(chrono::TimeDelta::milliseconds, rec_milliseconds)]
+fn exact_lo_q29() {
+    exact_lo(1 << 29, (1 << 30) - 1);
+}
+#[kani::proof]
+#[kani::stub(chrono::TimeDelta::milliseconds, rec_milliseconds)]
+fn exact_lo_q30() {
+    exact_lo(1 << 30, (1 << 31) - 1);
+}
+#[kani::proof]
+#[kani::stub(chrono::TimeDelta::milliseconds, rec_milliseconds)]
+fn exact_lo_q31() {
+    exact_lo(1 << 31, (1 << 32) - 1);
+}
+#[kani::proof]
+#[kani::stub(chrono::TimeDelta::milliseconds, rec_milliseconds)]
+fn exact_lo_q32() {
+    exact_lo(1 << 32, (1 << 33) - 1);
+}
+#[kani::proof]
+#[kani::stub(chrono::TimeDelta::milliseconds, rec_milliseconds)]
+fn exact_lo_q33() {
+    exact_lo(1 << 33, (1 << 34) - 1);
+}
+#[kani::proof]
+#[kani::stub(chrono::TimeDelta::milliseconds, rec_milliseconds)]
+fn exact_lo_q34() {
+    exact_lo(1 << 34, (1 << 35) - 1);
+}
+#[kani::proof]
+#[kani::stub(chrono::TimeDelta::milliseconds, rec_milliseconds)]
+fn exact_lo_q35() {
+    exact_lo(1 << 35, (1 << 36) - 1);
+}
+#[kani::proof]
+#[kani::stub(chrono::TimeDelta::milliseconds, rec_milliseconds)]
+fn exact_hi_e6() {
+    exact_hi(6);
+}
+#[kani::proof]
+#[kani::stub(chrono::TimeDelta::milliseconds, rec_milliseconds)]
+fn exact_hi_e7() {
+    exact_hi(7);
+}
+#[kani::proof]
+#[kani::stub(chrono::TimeDelta::milliseconds, rec_milliseconds)]
+fn exact_hi_e8() {
+    exact_hi(8);
+}
+#[kani::proof]
+#[kani::stub(chrono::TimeDelta::milliseconds, rec_milliseconds)]
+fn exact_hi_e9() {
+    exact_hi(9);
+}
+#[kani::proof]
+#[kani::stub(chrono::TimeDelta::milliseconds, rec_milliseconds)]
+fn exact_hi_e10() {
+    exact_hi(10);
+}
+#[kani::proof]
+#[kani::stub(chrono::TimeDelta::milliseconds, rec_milliseconds)]
+fn exact_hi_e11() {
+    exact_hi(11);
+}
+#[kani::proof]
+#[kani::stub(chrono::TimeDelta::milliseconds, rec_milliseconds)]
+fn exact_hi_e12() {
+    exact_hi(12);
+}
+#[kani::proof]
+#[kani::stub(chrono::TimeDelta::milliseconds, rec_milliseconds)]
+fn exact_hi_e13() {
+    exact_hi(13);
+}
+#[kani::proof]
+#[kani::stub(chrono::TimeDelta::milliseconds, rec_milliseconds)]
+fn exact_hi_e14() {
+    exact_hi(14);
+}
+#[kani::proof]
+#[kani::stub(chrono::TimeDelta::milliseconds, rec_milliseconds)]
+fn exact_hi_e15() {
+    exact_hi(15);
+}
+#[kani::proof]
+#[kani::stub(chrono::TimeDelta::milliseconds, rec_milliseconds)]
+fn exact_hi_e16() {
+    exact_hi(16);
+}
+#[kani::proof]
+#[kani::stub(chrono::TimeDelta::milliseconds, rec_milliseconds)]
+fn exact_hi_e17() {
+    exact_hi(17);
+}
+#[kani::proof]
+#[kani::stub(chrono::TimeDelta::milliseconds, rec_milliseconds)]
+fn exact_hi_e18() {
+    exact_hi(18);
+}
+#[kani::proof]
+#[kani::stub(chrono::TimeDelta::milliseconds, rec_milliseconds)]
+fn exact_hi_e19() {
+    exact_hi(19);
+}
+#[kani::proof]
+#[kani::stub(chrono::TimeDelta::milliseconds, rec_milliseconds)]
+fn exact_hi_e20() {
+    exact_hi(20);
+}
+#[kani::proof]
+#[kani::stub(chrono::TimeDelta::milliseconds, rec_milliseconds)]
+fn exact_hi_e21() {
+    exact_hi(21);
+}
+#[kani::proof]
+fn as_datetime_total_any_f64() {
+    total_datetime(false);
+}
+#[kani::proof]
+fn as_datetime_none_or_some_above_min() {
+    total_datetime(true);
+}
+#[kani::proof]
+fn as_datetime_beyond_calendar() {
+    beyond_calendar();
+}
+#[kani::proof]
+fn as_datetime_span_is_some() {
+    span_is_some();
+}
+#[kani::proof]
+fn as_datetime_nan_is_none() {
+    nan_is_none();
+}
+#[kani::proof]
+fn as_duration_total_any_f64() {
+    total_duration(false);
+}
+#[kani::proof]
+fn as_duration_some_above_min() {
+    total_duration(true);
+}
+#[kani::proof]
+#[kani::stub(chrono::TimeDelta::milliseconds, rec_milliseconds)]
+fn monotone_quarter_grid_0_100() {
+    mono_grid(4, 0, 400, false);
+}
+#[kani::proof]
+#[kani::stub(chrono::TimeDelta::milliseconds, rec_milliseconds)]
+fn monotone_quarter_grid_0_100_outside_59_61() {
+    mono_grid(4, 0, 400, true);
+}
+#[kani::proof]
+#[kani::stub(chrono::TimeDelta::milliseconds, rec_milliseconds)]
+fn monotone_1024_grid_0_128_outside_59_61() {
+    mono_grid(1024, 0, 128 * 1024 - 1, true);
+}
+#[kani::proof]
+#[kani::stub(chrono::TimeDelta::milliseconds, rec_milliseconds)]
+fn monotone_quarter_grid_e9() {
+    mono_grid(4, 512, 1023, true);
+}
+#[kani::proof]
+#[kani::stub(chrono::TimeDelta::milliseconds, rec_milliseconds)]
+fn monotone_quarter_grid_e10() {
+    mono_grid(4, 1024, 2047, true);
+}
+#[kani::proof]
+#[kani::stub(chrono::TimeDelta::milliseconds, rec_milliseconds)]
+fn monotone_quarter_grid_e11() {
+    mono_grid(4, 2048, 4095, true);
+}
+#[kani::proof]
+#[kani::stub(chrono::TimeDelta::milliseconds, rec_milliseconds)]
+fn monotone_quarter_grid_e12() {
+    mono_grid(4, 4096, 8191, true);
+}
+#[kani::proof]
+#[kani::stub(chrono::TimeDelta::milliseconds, rec_milliseconds)]
+fn monotone_quarter_grid_e13() {
+    mono_grid(4, 8192, 16383, true);
+}
+#[kani::proof]
+#[kani::stub(chrono::TimeDelta::milliseconds, rec_milliseconds)]
+fn monotone_quarter_grid_e14() {
+    mono_grid(4, 16384, 32767, true);
+}
+#[kani::proof]
+#[kani::stub(chrono::TimeDelta::milliseconds, rec_milliseconds)]
+fn monotone_quarter_grid_e15() {
+    mono_grid(4, 32768, 65535, true);
+}
+#[kani::proof]
+#[kani::stub(chrono::TimeDelta::milliseconds, rec_milliseconds)]
+fn monotone_quarter_grid_e16() {
+    mono_grid(4, 65536, 131071, true);
+}
+#[kani::proof]
+#[kani::stub(chrono::TimeDelta::milliseconds, rec_milliseconds)]
+fn monotone_quarter_grid_e17() {
+    mono_grid(4, 131072, 262143, true);
+}
+#[kani::proof]
+#[kani::stub(chrono::TimeDelta::milliseconds, rec_milliseconds)]
+fn monotone_quarter_grid_e18() {
+    mono_grid(4, 262144, 524287, true);
+}
+#[kani::proof]
+#[kani::stub(chrono::TimeDelta::milliseconds, rec_milliseconds)]
+fn monotone_quarter_grid_e19() {
+    mono_grid(4, 524288, 1048575, true);
+}
+#[kani::proof]
+#[kani::stub(chrono::TimeDelta::milliseconds, rec_milliseconds)]
+fn monotone_quarter_grid_e20() {
+    mono_grid(4, 1048576, 2097151, true);
+}
+#[kani::proof]
+#[kani::stub(chrono::TimeDelta::milliseconds, rec_milliseconds)]
+fn monotone_quarter_grid_e21() {
+    mono_grid(4, 2097152, 4194303, true);
+}
+#[kani::proof]
+#[kani::stub(chrono::TimeDelta::milliseconds, rec_milliseconds)]
+fn monotone_quarter_grid_e22() {
+    mono_grid(4, 4194304, 8388607, true);
+}
+#[kani::proof]
+#[kani::stub(chrono::TimeDelta::milliseconds, rec_milliseconds)]
+fn monotone_quarter_grid_e23() {
+    mono_grid(4, 8388608, 11833863, true);
+}
+#[kani::proof]
+#[kani::stub(chrono::TimeDelta::milliseconds, rec_milliseconds)]
+fn duration_days_e0() {
+    dur_whole_days(0, 1);
+}
+#[kani::proof]
+#[kani::stub(chrono::TimeDelta::milliseconds, rec_milliseconds)]
+fn duration_days_e1() {
+    dur_whole_days(2, 3);
+}
+#[kani::proof]
+#[kani::stub(chrono::TimeDelta::milliseconds, rec_milliseconds)]
+fn duration_days_e2() {
+    dur_whole_days(4, 7);
+}
+#[kani::proof]
+#[kani::stub(chrono::TimeDelta::milliseconds, rec_milliseconds)]
+fn duration_days_e3() {
+    dur_whole_days(8, 15);
+}
+#[kani::proof]
+#[kani::stub(chrono::TimeDelta::milliseconds, rec_milliseconds)]
+fn duration_days_e4() {
+    dur_whole_days(16, 31);
+}
+#[kani::proof]
+#[kani::stub(chrono::TimeDelta::milliseconds, rec_milliseconds)]
+fn duration_days_e5() {
+    dur_whole_days(32, 63);
+}
+#[kani::proof]
+#[kani::stub(chrono::TimeDelta::milliseconds, rec_milliseconds)]
+fn duration_days_e6() {
+    dur_whole_days(64, 127);
+}
+#[kani::proof]
+#[kani::stub(chrono::TimeDelta::milliseconds, rec_milliseconds)]
+fn duration_days_e7() {
+    dur_whole_days(128, 255);
+}
+#[kani::proof]
+#[kani::stub(chrono::TimeDelta::milliseconds, rec_milliseconds)]
+fn duration_days_e8() {
+    dur_whole_days(256, 511);
+}
+#[kani::proof]
+#[kani::stub(chrono::TimeDelta::milliseconds, rec_milliseconds)]
+fn duration_days_e9() {
+    dur_whole_days(512, 1023);
+}
+#[kani::proof]
+#[kani::stub(chrono::TimeDelta::milliseconds, rec_milliseconds)]
+fn duration_days_e10() {
+    dur_whole_days(1024, 2047);
+}
+#[kani::proof]
+#[kani::stub(chrono::TimeDelta::milliseconds, rec_milliseconds)]
+fn duration_days_e11() {
+    dur_whole_days(2048, 4095);
+}
+#[kani::proof]
+#[kani::stub(chrono::TimeDelta::milliseconds, rec_milliseconds)]
+fn duration_days_e12() {
+    dur_whole_days(4096, 8191);
+}
+#[kani::proof]
+#[kani::stub(chrono::TimeDelta::milliseconds, rec_milliseconds)]
+fn duration_days_e13() {
+    dur_whole_days(8192, 16383);
+}
+#[kani::proof]
+#[kani::stub(chrono::TimeDelta::milliseconds, rec_milliseconds)]
+fn duration_days_e14() {
+    dur_whole_days(16384, 32767);
+}
+#[kani::proof]
+#[kani::stub(chrono::TimeDelta::milliseconds, rec_milliseconds)]
+fn duration_days_e15() {
+    dur_whole_days(32768, 65535);
+}
+#[kani::proof]
+#[kani::stub(chrono::TimeDelta::milliseconds, rec_milliseconds)]
+fn duration_days_e16() {
+    dur_whole_days(65536, 131071);
+}
+#[kani::proof]
+#[kani::stub(chrono::TimeDelta::milliseconds, rec_milliseconds)]
+fn duration_days_e17() {
+    dur_whole_days(131072, 262143);
+}
+#[kani::proof]
+#[kani::stub(chrono::TimeDelta::milliseconds, rec_milliseconds)]
+fn duration_days_e18() {
+    dur_whole_days(262144, 524287);
+}
+#[kani::proof]
+#[kani::stub(chrono::TimeDelta::milliseconds, rec_milliseconds)]
+fn duration_days_e19() {
+    dur_whole_days(524288, 1048575);
+}
+#[kani::proof]
+#[kani::stub(chrono::TimeDelta::milliseconds, rec_milliseconds)]
+fn duration_days_e20() {
+    dur_whole_days(1048576, 2097151);
+}
+#[kani::proof]
+#[kani::stub(chrono::TimeDelta::milliseconds, rec_milliseconds)]
+fn duration_days_e21() {
+    dur_whole_days(2097152, 2958465);
+}
+#[kani::proof]
+#[kani::stub(chrono::TimeDelta::milliseconds, rec_milliseconds)]
+fn duration_tol_em28() {
+    dur_tol(-28);
+}
+#[kani::proof]
+#[kani::stub(chrono::TimeDelta::milliseconds, rec_milliseconds)]
+fn duration_tol_em27() {
+    dur_tol(-27);
+}
+#[kani::proof]
+#[kani::stub(chrono::TimeDelta::milliseconds, rec_milliseconds)]
+fn duration_tol_em26() {
+    dur_tol(-26);
+}
+#[kani::proof]
+#[kani::stub(chrono::TimeDelta::milliseconds, rec_milliseconds)]
+fn duration_tol_em25() {
+    dur_tol(-25);
+}
+#[kani::proof]
+#[kani::stub(chrono::TimeDelta::milliseconds, rec_milliseconds)]
+fn duration_tol_em24() {
+    dur_tol(-24);
+}
+#[kani::proof]
+#[kani::stub(chrono::TimeDelta::milliseconds, rec_milliseconds)]
+fn duration_tol_em23() {
+    dur_tol(-23);
+}
+#[kani::proof]
+#[kani::stub(chrono::TimeDelta::milliseconds, rec_milliseconds)]
+fn duration_tol_em22() {
+    dur_tol(-22);
+}
+#[kani::proof]
+#[kani::stub(chrono::TimeDelta::milliseconds, rec_milliseconds)]
+fn duration_tol_em21() {
+    dur_tol(-21);
+}
+#[kani::proof]
+#[kani::stub(chrono::TimeDelta::milliseconds, rec_milliseconds)]
+fn duration_tol_em20() {
+    dur_tol(-20);
+}
+#[kani::proof]
+#[kani::stub(chrono::TimeDelta::milliseconds, rec_milliseconds)]
+fn duration_tol_em19() {
+    dur_tol(-19);
+}
+#[kani::proof]
+#[kani::stub(chrono::TimeDelta::milliseconds, rec_milliseconds)]
+fn duration_tol_em18() {
+    dur_tol(-18);
+}
+#[kani::proof]
+#[kani::stub(chrono::TimeDelta::milliseconds, rec_milliseconds)]
+fn duration_tol_em17() {
+    dur_tol(-17);
+}
+#[kani::proof]
+#[kani::stub(chrono::TimeDelta::milliseconds, rec_milliseconds)]
+fn duration_tol_em16() {
+    dur_tol(-16);
+}
+#[kani::proof]
+#[kani::stub(chrono::TimeDelta::milliseconds, rec_milliseconds)]
+fn duration_tol_em15() {
+    dur_tol(-15);
+}
+#[kani::proof]
+#[kani::stub(chrono::TimeDelta::milliseconds, rec_milliseconds)]
+fn duration_tol_em14() {
+    dur_tol(-14);
+}
+#[kani::proof]
+#[kani::stub(chrono::TimeDelta::milliseconds, rec_milliseconds)]
+fn duration_tol_em13() {
+    dur_tol(-13);
+}
+#[kani::proof]
+#[kani::stub(chrono::TimeDelta::milliseconds, rec_milliseconds)]
+fn duration_tol_em12() {
+    dur_tol(-12);
+}
+#[kani::proof]
+#[kani::stub(chrono::TimeDelta::milliseconds, rec_milliseconds)]
+fn duration_tol_em11() {
+    dur_tol(-11);
+}
+#[kani::proof]
+#[kani::stub(chrono::TimeDelta::milliseconds, rec_milliseconds)]
+fn duration_tol_em10() {
+    dur_tol(-10);
+}
+#[kani::proof]
+#[kani::stub(chrono::TimeDelta::milliseconds, rec_milliseconds)]
+fn duration_tol_em9() {
+    dur_tol(-9);
+}
+#[kani::proof]
+#[kani::stub(chrono::TimeDelta::milliseconds, rec_milliseconds)]
+fn duration_tol_em8() {
+    dur_tol(-8);
+}
+#[kani::proof]
+#[kani::stub(chrono::TimeDelta::milliseconds, rec_milliseconds)]
+fn duration_tol_em7() {
+    dur_tol(-7);
+}
+#[kani::proof]
+#[kani::stub(chrono::TimeDelta::milliseconds, rec_milliseconds)]
+fn duration_tol_em6() {
+    dur_tol(-6);
+}
+#[kani::proof]
+#[kani::stub(chrono::TimeDelta::milliseconds, rec_milliseconds)]
+fn duration_tol_em5() {
+    dur_tol(-5);
+}
+#[kani::proof]
+#[kani::stub(chrono::TimeDelta::milliseconds, rec_milliseconds)]
+fn duration_tol_em4() {
+    dur_tol(-4);
+}
+#[kani::proof]
+#[kani::stub(chrono::TimeDelta::milliseconds, rec_milliseconds)]
+fn duration_tol_em3() {
+    dur_tol(-3);
+}
+#[kani::proof]
+#[kani::stub(chrono::TimeDelta::milliseconds, rec_milliseconds)]
+fn duration_tol_em2() {
+    dur_tol(-2);
+}
+#[kani::proof]
+#[kani::stub(chrono::TimeDelta::milliseconds, rec_milliseconds)]
+fn duration_tol_em1() {
+    dur_tol(-1);
+}
+#[kani::proof]
+#[kani::stub(chrono::TimeDelta::milliseconds, rec_milliseconds)]
+fn duration_tol_e0() {
+    dur_tol(0);
+}
+#[kani::proof]
+#[kani::stub(chrono::TimeDelta::milliseconds, rec_milliseconds)]
+fn duration_tol_e1() {
+    dur_tol(1);
+}
+#[kani::proof]
+#[kani::stub(chrono::TimeDelta::milliseconds, rec_milliseconds)]
+fn duration_tol_e2() {
+    dur_tol(2);
+}
+#[kani::proof]
+#[kani::stub(chrono::TimeDelta::milliseconds, rec_milliseconds)]
+fn duration_tol_e3() {
+    dur_tol(3);
+}
+#[kani::proof]
+#[kani::stub(chrono::TimeDelta::milliseconds, rec_milliseconds)]
+fn duration_tol_e4() {
+    dur_tol(4);
+}
+#[kani::proof]
+#[kani::stub(chrono::TimeDelta::milliseconds, rec_milliseconds)]
+fn duration_tol_e5() {
+    dur_tol(5);
+}
+#[kani::proof]
+#[kani::stub(chrono::TimeDelta::milliseconds, rec_milliseconds)]
+fn duration_tol_e6() {
+    dur_tol(6);
+}
+#[kani::proof]
+#[kani::stub(chrono::TimeDelta::milliseconds, rec_milliseconds)]
+fn duration_tol_e7() {
+    dur_tol(7);
+}
+#[kani::proof]
+#[kani::stub(chrono::TimeDelta::milliseconds, rec_milliseconds)]
+fn duration_tol_e8() {
+    dur_tol(8);
+}
+#[kani::proof]
+#[kani::stub(chrono::TimeDelta::milliseconds, rec_milliseconds)]
+fn duration_tol_e9() {
+    dur_tol(9);
+}
+#[kani::proof]
+#[kani::stub(chrono::TimeDelta::milliseconds, rec_milliseconds)]
+fn duration_tol_e10() {
+    dur_tol(10);
+}
+#[kani::proof]
+#[kani::stub(chrono::TimeDelta::milliseconds, rec_milliseconds)]
+fn duration_tol_e11() {
+    dur_tol(11);
+}
+#[kani::proof]
+#[kani::stub(chrono::TimeDelta::milliseconds, rec_milliseconds)]
+fn duration_tol_e12() {
+    dur_tol(12);
+}
+#[kani::proof]
+#[kani::stub(chrono::TimeDelta::milliseconds, rec_milliseconds)]
+fn duration_tol_e13() {
+    dur_tol(13);
+}
+#[kani::proof]
+#[kani::stub(chrono::TimeDelta::milliseconds, rec_milliseconds)]
+fn duration_tol_e14() {
+    dur_tol(14);
+}
+#[kani::proof]
+#[kani::stub(chrono::TimeDelta::milliseconds, rec_milliseconds)]
+fn duration_tol_e15() {
     dur_tol(15);
 }
-
-fn tol_1904(e: i32) {
-    let m: u64 = kani::any();
-    kani::assume(m < (1u64 << 52));
-    let v = f64::from_bits((((1023 + e) as u64) << 52) | m);
-    kani::assume(v < 2958466.0);
-    let ms = ms_of(v, true);
-    let s = (52 - e) as u32;
-    let mant = (1u128 << 52) + m as u128;
-    let fnum: u128 = mant + (1462u128 << s);
-    let lhs: u128 = (ms as u128) << s;
-    let rhs: u128 = fnum * 84375 * 1024;
-    let tol: u128 = (1u128 << (s - 1)) + (1u128 << (s - 4));
-    assert!(ms >= 0);
-    assert!(lhs <= rhs + tol && rhs <= lhs + tol);
+#[kani::proof]
+#[kani::stub(chrono::TimeDelta::milliseconds, rec_milliseconds)]
+fn duration_tol_e16() {
+    dur_tol(16);
 }
 #[kani::proof]
 #[kani::stub(chrono::TimeDelta::milliseconds, rec_milliseconds)]
-fn x_tol04_e15() {
-    tol_1904(15);
+fn duration_tol_e17() {
+    dur_tol(17);
 }
 #[kani::proof]
 #[kani::stub(chrono::TimeDelta::milliseconds, rec_milliseconds)]
-fn x_tol04_em20() {
-    tol_1904(-20);
+fn duration_tol_e18() {
+    dur_tol(18);
+}
+#[kani::proof]
+#[kani::stub(chrono::TimeDelta::milliseconds, rec_milliseconds)]
+fn duration_tol_e19() {
+    dur_tol(19);
+}
+#[kani::proof]
+#[kani::stub(chrono::TimeDelta::milliseconds, rec_milliseconds)]
+fn duration_tol_e20() {
+    dur_tol(20);
+}
+#[kani::proof]
+#[kani::stub(chrono::TimeDelta::milliseconds, rec_milliseconds)]
+fn duration_tol_e21() {
+    dur_tol(21);
+}
+#[kani::proof]
+#[kani::stub(chrono::TimeDelta::milliseconds, rec_milliseconds)]
+fn duration_tol_tiny() {
+    dur_tiny();
+}
+#[kani::proof]
+#[kani::stub(crate::datatype::ExcelDateTime::as_datetime, rec_as_datetime)]
+fn trait_data_float_datetime() {
+    let f: f64 = kani::any(); trait_plain_datetime(Data::Float(f), f.to_bits());
+}
+#[kani::proof]
+#[kani::stub(crate::datatype::ExcelDateTime::as_datetime, rec_as_datetime)]
+fn trait_data_int_datetime() {
+    let i: i64 = kani::any(); trait_plain_datetime(Data::Int(i), (i as f64).to_bits());
+}
+#[kani::proof]
+#[kani::stub(crate::datatype::ExcelDateTime::as_datetime, rec_as_datetime)]
+#[kani::stub(crate::datatype::ExcelDateTime::as_duration, rec_as_duration)]
+fn trait_data_datetime_cell() {
+    let e = any_edt(); trait_datetime_cell(Data::DateTime(e), e);
+}
+#[kani::proof]
+#[kani::stub(crate::datatype::ExcelDateTime::as_duration, rec_as_duration)]
+fn trait_data_plain_duration() {
+    let f: f64 = kani::any(); let i: i64 = kani::any(); trait_plain_duration(Data::Float(f), Data::Int(i));
+}
+#[kani::proof]
+#[kani::stub(crate::datatype::ExcelDateTime::as_datetime, rec_as_datetime)]
+fn trait_dataref_float_datetime() {
+    let f: f64 = kani::any(); trait_plain_datetime(DataRef::Float(f), f.to_bits());
+}
+#[kani::proof]
+#[kani::stub(crate::datatype::ExcelDateTime::as_datetime, rec_as_datetime)]
+fn trait_dataref_int_datetime() {
+    let i: i64 = kani::any(); trait_plain_datetime(DataRef::Int(i), (i as f64).to_bits());
+}
+#[kani::proof]
+#[kani::stub(crate::datatype::ExcelDateTime::as_datetime, rec_as_datetime)]
+#[kani::stub(crate::datatype::ExcelDateTime::as_duration, rec_as_duration)]
+fn trait_dataref_datetime_cell() {
+    let e = any_edt(); trait_datetime_cell(DataRef::DateTime(e), e);
+}
+#[kani::proof]
+#[kani::stub(crate::datatype::ExcelDateTime::as_duration, rec_as_duration)]
+fn trait_dataref_plain_duration() {
+    let f: f64 = kani::any(); let i: i64 = kani::any(); trait_plain_duration(DataRef::Float(f), DataRef::Int(i));
+}
+#[kani::proof]
+fn anchors_1900_named() {
+    anchor(0.0, false, 1899, 12, 31, 0, 0, 0, 0);
+    anchor(1.0, false, 1900, 1, 1, 0, 0, 0, 0);
+    anchor(2.0, false, 1900, 1, 2, 0, 0, 0, 0);
+    anchor(31.0, false, 1900, 1, 31, 0, 0, 0, 0);
+    anchor(32.0, false, 1900, 2, 1, 0, 0, 0, 0);
+    anchor(58.0, false, 1900, 2, 27, 0, 0, 0, 0);
+    anchor(59.0, false, 1900, 2, 28, 0, 0, 0, 0);
+    anchor(61.0, false, 1900, 3, 1, 0, 0, 0, 0);
+    anchor(62.0, false, 1900, 3, 2, 0, 0, 0, 0);
+    anchor(366.0, false, 1900, 12, 31, 0, 0, 0, 0);
+    anchor(367.0, false, 1901, 1, 1, 0, 0, 0, 0);
+    anchor(25569.0, false, 1970, 1, 1, 0, 0, 0, 0);
+    anchor(2958465.0, false, 9999, 12, 31, 0, 0, 0, 0);
+}
+#[kani::proof]
+fn anchors_1900_cycle() {
+    anchor(36525.0, false, 1999, 12, 31, 0, 0, 0, 0);
+    anchor(36526.0, false, 2000, 1, 1, 0, 0, 0, 0);
+    anchor(36585.0, false, 2000, 2, 29, 0, 0, 0, 0);
+    anchor(36586.0, false, 2000, 3, 1, 0, 0, 0, 0);
+    anchor(36891.0, false, 2000, 12, 31, 0, 0, 0, 0);
+    anchor(36892.0, false, 2001, 1, 1, 0, 0, 0, 0);
+    anchor(73050.0, false, 2099, 12, 31, 0, 0, 0, 0);
+    anchor(73051.0, false, 2100, 1, 1, 0, 0, 0, 0);
+    anchor(73109.0, false, 2100, 2, 28, 0, 0, 0, 0);
+    anchor(73110.0, false, 2100, 3, 1, 0, 0, 0, 0);
+    anchor(109575.0, false, 2200, 1, 1, 0, 0, 0, 0);
+    anchor(146158.0, false, 2300, 3, 1, 0, 0, 0, 0);
+    anchor(146158.0, false, 2300, 3, 1, 0, 0, 0, 0);
+    anchor(693596.0, false, 3798, 12, 30, 0, 0, 0, 0);
+    anchor(1521.0, false, 1904, 2, 29, 0, 0, 0, 0);
+    anchor(1522.0, false, 1904, 3, 1, 0, 0, 0, 0);
+    anchor(1523.0, false, 1904, 3, 2, 0, 0, 0, 0);
+}
+#[kani::proof]
+fn anchors_1904_named() {
+    anchor(0.0, true, 1904, 1, 1, 0, 0, 0, 0);
+    anchor(1.0, true, 1904, 1, 2, 0, 0, 0, 0);
+    anchor(58.0, true, 1904, 2, 28, 0, 0, 0, 0);
+    anchor(59.0, true, 1904, 2, 29, 0, 0, 0, 0);
+    anchor(60.0, true, 1904, 3, 1, 0, 0, 0, 0);
+    anchor(61.0, true, 1904, 3, 2, 0, 0, 0, 0);
+    anchor(365.0, true, 1904, 12, 31, 0, 0, 0, 0);
+    anchor(366.0, true, 1905, 1, 1, 0, 0, 0, 0);
+    anchor(24107.0, true, 1970, 1, 1, 0, 0, 0, 0);
+    anchor(2957003.0, true, 9999, 12, 31, 0, 0, 0, 0);
+}
+#[kani::proof]
+fn anchors_time_of_day() {
+    anchor(0.5, false, 1899, 12, 31, 12, 0, 0, 0);
+    anchor(0.25, false, 1899, 12, 31, 6, 0, 0, 0);
+    anchor(0.75, false, 1899, 12, 31, 18, 0, 0, 0);
+    anchor(0.999999, false, 1899, 12, 31, 23, 59, 59, 914);
+    anchor(0.00146484375, false, 1899, 12, 31, 0, 2, 6, 563);
+    anchor(0.00048828125, false, 1899, 12, 31, 0, 0, 42, 188);
+    anchor(0.00244140625, false, 1899, 12, 31, 0, 3, 30, 938);
+    anchor(61.00146484375, false, 1900, 3, 1, 0, 2, 6, 563);
+    anchor(44484.7916666667, false, 2021, 10, 15, 19, 0, 0, 0);
+    anchor(0.187375, false, 1899, 12, 31, 4, 29, 49, 200);
+    anchor(0.259517361111111, false, 1899, 12, 31, 6, 13, 42, 300);
+    anchor(25569.645833333332, false, 1970, 1, 1, 15, 30, 0, 0);
+    anchor(45000.00000000463, false, 2023, 3, 15, 0, 0, 0, 0);
+    anchor(45000.00000000694, false, 2023, 3, 15, 0, 0, 0, 1);
+    anchor(45000.00001156713, false, 2023, 3, 15, 0, 0, 0, 999);
+    anchor(45000.00001156944, false, 2023, 3, 15, 0, 0, 1, 0);
+    anchor(45000.99999999306, false, 2023, 3, 15, 23, 59, 59, 999);
+    anchor(45000.99999999537, false, 2023, 3, 16, 0, 0, 0, 0);
+    anchor(59.5, false, 1900, 2, 28, 12, 0, 0, 0);
+    anchor(58.99999999537037, false, 1900, 2, 28, 0, 0, 0, 0);
+    anchor(2958465.999999993, false, 9999, 12, 31, 23, 59, 59, 999);
+}
+#[kani::proof]
+fn anchors_time_of_day_1904() {
+    anchor(0.5, true, 1904, 1, 1, 12, 0, 0, 0);
+    anchor(0.00146484375, true, 1904, 1, 1, 0, 2, 6, 563);
+    anchor(43000.00000000463, true, 2021, 9, 23, 0, 0, 0, 0);
+    anchor(43000.00000000694, true, 2021, 9, 23, 0, 0, 0, 1);
+    anchor(43000.99999999537, true, 2021, 9, 24, 0, 0, 0, 0);
+}
+#[kani::proof]
+fn anchors_none() {
+    anchor_none(1e20, false); anchor_none(1e20, true); anchor_none(f64::MAX, false); anchor_none(f64::INFINITY, false); anchor_none(1.0e8, false); anchor_none(-1.0e8, false); anchor_none(-1.0e10, true);
+}
+#[kani::proof]
+fn anchors_as_date_as_time() {
+    anchors_components();
+}
+#[kani::proof]
+fn anchors_duration() {
+    anchors_duration();
+}
+#[kani::proof]
+fn civil_oracle_61_4095() {
+    civil_range(61, 4095);
+}
+#[kani::proof]
+fn civil_oracle_4096_8191() {
+    civil_range(4096, 8191);
+}
+#[kani::proof]
+fn civil_oracle_8192_12287() {
+    civil_range(8192, 12287);
+}
+#[kani::proof]
+fn civil_oracle_12288_16383() {
+    civil_range(12288, 16383);
+}
+#[kani::proof]
+fn civil_oracle_16384_20479() {
+    civil_range(16384, 20479);
+}
+#[kani::proof]
+fn civil_oracle_20480_24575() {
+    civil_range(20480, 24575);
+}
+#[kani::proof]
+fn civil_oracle_24576_28671() {
+    civil_range(24576, 28671);
+}
+#[kani::proof]
+fn civil_oracle_28672_32767() {
+    civil_range(28672, 32767);
+}
+#[kani::proof]
+fn civil_oracle_32768_36863() {
+    civil_range(32768, 36863);
+}
+#[kani::proof]
+fn civil_oracle_36864_40959() {
+    civil_range(36864, 40959);
+}
+#[kani::proof]
+fn civil_oracle_40960_45055() {
+    civil_range(40960, 45055);
+}
+#[kani::proof]
+fn civil_oracle_45056_49151() {
+    civil_range(45056, 49151);
+}
+#[kani::proof]
+fn civil_oracle_49152_53247() {
+    civil_range(49152, 53247);
+}
+#[kani::proof]
+fn civil_oracle_53248_57343() {
+    civil_range(53248, 57343);
+}
+#[kani::proof]
+fn civil_oracle_57344_61439() {
+    civil_range(57344, 61439);
+}
+#[kani::proof]
+fn civil_oracle_61440_65535() {
+    civil_range(61440, 65535);
+}
+#[kani::proof]
+fn civil_oracle_65536_69631() {
+    civil_range(65536, 69631);
+}
+#[kani::proof]
+fn civil_oracle_69632_73727() {
+    civil_range(69632, 73727);
 }
